@@ -195,9 +195,12 @@ CHECKS = {
              "backends, wrong call order) under a profile where unchecked slice access out of bounds aborts the process; "
              "the executor turns a dead process into an `abort` event and a stuck call into `hang`, and TLC rejects both "
              "everywhere while demanding the documented result or a clean panic; the design models additionally carry "
-             "explicit bounds checks on every array read, model-checked exhaustively.",
+             "explicit bounds checks on every array read, model-checked exhaustively. Families: bitvec, bitfield, "
+             "ranksel, ef, rcl (incl. probe strings holding NUL bytes), sigstore, shardedge, mod2, vbuild and the "
+             "SliceSeq adapter (sliceseq). The thorough tier repeats every out-of-domain batch under an "
+             "AddressSanitizer build of the executor.",
         note=TRUST + "The specification decides admissible outcomes but cannot observe memory: it relies on ub_checks / "
-             "SIGSEGV to surface out-of-bounds access (raw-pointer reads are modelled in the design only). Known "
+             "SIGSEGV (quick) and AddressSanitizer (thorough) to surface out-of-bounds access. Known "
              "findings: zero-width BitFieldVec over an empty caller-supplied backend; try_chunks_mut on width 0.",
         design_ref="5/C12"),
     "C13": dict(
